@@ -1,8 +1,292 @@
-//! C20 — see /verif/DESIGN.md §3.
-use vf_core::{Args, Ctx};
+//! C20 — no arithmetic overflow or debug-assertion failure is reachable from
+//! font data (DESIGN.md §3 C20).
+//!
+//! The sanitizer is the compiler's own instrumentation: this crate is only
+//! ever built with `--profile strict` (opt-level 2, `-C overflow-checks=on
+//! -C debug-assertions=on`: the configuration the project's fuzzers use). The
+//! oracle is the panic monitor's classifier: a panic whose message class is
+//! *overflow* ("attempt to … with overflow") or *debug-assert* violates C20;
+//! every other panic belongs to the totality properties and is only counted.
+//!
+//! Workload = (1) arithmetic-directed **extreme-value substitution** written
+//! here, driven through C01's walker (`vf_c01::walk_font`) and C02's skrifa
+//! configuration product (`vf_c02::exercise_font`), and (2) the totality
+//! workloads of C01 / C02 / C13 / C18 / C19 themselves, re-run in this build
+//! with `ctx.policy = StrictOnly` and `ctx.panics_only = true` (their semantic
+//! oracles are counted but not reported here).
 
-pub const REPLAY: Option<fn(&mut Ctx, &Args, &serde_json::Value, Option<&[u8]>)> = None;
+use vf_core::gen::{be16, parse_dir, Patcher, TableRec};
+use vf_core::{fnv64, Args, Ctx, Digest, PanicPolicy, Rng};
 
-pub fn run(ctx: &mut Ctx, _args: &Args) {
-    ctx.rule = "stub".into();
+pub const REPLAY: Option<fn(&mut Ctx, &Args, &serde_json::Value, Option<&[u8]>)> = Some(replay);
+
+/// 16-bit extremes (as signed and unsigned quantities).
+const EXT16: [u16; 8] = [0x8000, 0x8001, 0xFFFF, 0x7FFF, 0x7FFE, 0x0000, 0x0001, 0xFFFE];
+/// 32-bit extremes.
+const EXT32: [u32; 6] = [0x8000_0000, 0x8000_0001, 0xFFFF_FFFF, 0x7FFF_FFFF, 0x7FFF_FFFE, 0];
+
+/// (tag, start, end) header regions holding arithmetic-relevant fields.
+fn regions(tag: &[u8; 4], len: usize) -> Vec<(usize, usize)> {
+    let r = |a: usize, b: usize| (a.min(len), b.min(len));
+    match tag {
+        b"head" => vec![r(16, 54)],
+        b"hhea" | b"vhea" => vec![r(4, 36)],
+        b"maxp" => vec![r(4, 32)],
+        b"OS/2" => vec![r(2, 100)],
+        b"post" => vec![r(4, 16)],
+        b"hmtx" | b"vmtx" => vec![r(0, 64), r(len.saturating_sub(32), len)],
+        b"fvar" => vec![r(4, 96)],
+        b"avar" => vec![r(4, 96)],
+        b"HVAR" | b"VVAR" | b"MVAR" => vec![r(0, 128)],
+        b"gvar" => vec![r(4, 64)],
+        b"cvar" => vec![r(0, 64)],
+        b"cvt " => vec![r(0, 64)],
+        b"VORG" => vec![r(0, 32)],
+        b"COLR" => vec![r(0, 34), r(34, 34 + 192)],
+        b"CPAL" => vec![r(0, 32)],
+        b"CBLC" | b"EBLC" | b"sbix" => vec![r(0, 96)],
+        b"GDEF" | b"BASE" => vec![r(0, 64)],
+        b"kern" => vec![r(0, 64)],
+        b"CFF " | b"CFF2" => vec![r(0, 256)],
+        b"STAT" => vec![r(0, 48)],
+        b"VARC" => vec![r(0, 64)],
+        _ => vec![],
+    }
+}
+
+/// glyph header regions (numberOfContours + bbox + first coordinates) of the
+/// first few glyphs, located through loca.
+fn glyf_regions(bytes: &[u8], dir: &[TableRec]) -> Vec<(usize, usize)> {
+    let find = |t: &[u8; 4]| dir.iter().find(|r| &r.tag == t);
+    let (Some(head), Some(loca), Some(glyf)) = (find(b"head"), find(b"loca"), find(b"glyf")) else {
+        return vec![];
+    };
+    let long = be16(bytes, head.offset as usize + 50).unwrap_or(0) != 0;
+    let lr = loca.range(bytes.len());
+    let gr = glyf.range(bytes.len());
+    let mut v = vec![];
+    let n = if long { lr.len() / 4 } else { lr.len() / 2 };
+    let mut seen = 0;
+    for i in 0..n.saturating_sub(1) {
+        let off = |k: usize| -> usize {
+            if long {
+                vf_core::gen::be32(bytes, lr.start + 4 * k).unwrap_or(0) as usize
+            } else {
+                be16(bytes, lr.start + 2 * k).unwrap_or(0) as usize * 2
+            }
+        };
+        let (a, b) = (off(i), off(i + 1));
+        if b > a && gr.start + b <= gr.end {
+            v.push((gr.start + a, (gr.start + a + 10 + 48).min(gr.start + b)));
+            seen += 1;
+            if seen >= 6 {
+                break;
+            }
+        }
+    }
+    v
+}
+
+fn exercise(ctx: &mut Ctx, font: &str, what: &str, bytes: &[u8]) {
+    ctx.eval();
+    let label = format!("{}|{}", font, what);
+    let mut d = Digest::new();
+    d.str(font);
+    d.str(what);
+    ctx.nontrivial(d.finish());
+    vf_c02::exercise_font(ctx, &label, bytes);
+    vf_c01::walk_font(ctx, &label, bytes);
+}
+
+/// Arithmetic-directed extreme-value substitution on one font.
+fn extreme_values(ctx: &mut Ctx, font_ix: usize, name: &str, orig: &[u8], item: &mut usize) {
+    let dir = parse_dir(orig, 0);
+    if dir.is_empty() {
+        return;
+    }
+    let mut buf = orig.to_vec();
+    let mut p = Patcher::new();
+    let mut all_regions: Vec<([u8; 4], usize, usize)> = vec![];
+    for rec in &dir {
+        let tr = rec.range(orig.len());
+        for (a, b) in regions(&rec.tag, tr.len()) {
+            if b > a {
+                all_regions.push((rec.tag, tr.start + a, tr.start + b));
+            }
+        }
+    }
+    for (a, b) in glyf_regions(orig, &dir) {
+        all_regions.push((*b"glyf", a, b));
+    }
+    let single_stride = ctx.budget(5, 1);
+    let combos = ctx.budget(6, 40);
+    let cross = ctx.budget(8, 60);
+    // (a) single field substitutions
+    for (tag, a, b) in &all_regions {
+        let tag_s = String::from_utf8_lossy(tag).to_string();
+        let mut pos = *a;
+        while pos + 2 <= *b {
+            for (k, v) in EXT16.iter().enumerate() {
+                *item += 1;
+                if !ctx.mine(*item) || (*item / ctx.shard.1) % single_stride != 0 {
+                    continue;
+                }
+                if be16(&buf, pos) == Some(*v) {
+                    continue;
+                }
+                p.set16(&mut buf, pos, *v);
+                ctx.count("mutants:single16", 1);
+                exercise(ctx, name, &format!("{}:u16@{}={:#x}#{}", tag_s, pos, v, k), &buf);
+                p.undo(&mut buf);
+            }
+            if (pos - *a) % 4 == 0 && pos + 4 <= *b {
+                for v in EXT32 {
+                    *item += 1;
+                    if !ctx.mine(*item) || (*item / ctx.shard.1) % single_stride != 0 {
+                        continue;
+                    }
+                    p.set32(&mut buf, pos, v);
+                    ctx.count("mutants:single32", 1);
+                    exercise(ctx, name, &format!("{}:u32@{}={:#x}", tag_s, pos, v), &buf);
+                    p.undo(&mut buf);
+                }
+            }
+            pos += 2;
+        }
+    }
+    // (b) whole-region assignments: every 16-bit word of one region gets an
+    // extreme (constant, alternating lo/hi, random) — differences and sums of
+    // neighbouring fields (bbox extents, ascender − descender, ...) then overflow.
+    for (ri, (tag, a, b)) in all_regions.iter().enumerate() {
+        let tag_s = String::from_utf8_lossy(tag).to_string();
+        for c in 0..combos {
+            *item += 1;
+            if !ctx.mine(*item) {
+                continue;
+            }
+            let mut rng = Rng::derive(ctx.seed, "c20-region", (font_ix * 1000 + ri) as u64 * 64 + c as u64);
+            let mode = c % 4;
+            let mut pos = *a;
+            let mut k = 0usize;
+            let keep = rng.usize(4); // leave some words alone so the table still parses
+            while pos + 2 <= *b {
+                let v = match mode {
+                    0 => EXT16[c / 4 % EXT16.len()],
+                    1 => [0x8000u16, 0x7FFF][k % 2],
+                    2 => [0x7FFFu16, 0x8000][k % 2],
+                    _ => *rng.pick(&EXT16),
+                };
+                if !(mode == 3 && rng.usize(4) < keep) {
+                    p.set16(&mut buf, pos, v);
+                }
+                pos += 2;
+                k += 1;
+            }
+            ctx.count("mutants:region", 1);
+            exercise(ctx, name, &format!("{}:region[{}..{}]:mode{}#{}", tag_s, a, b, mode, c), &buf);
+            p.undo(&mut buf);
+        }
+    }
+    // (c) cross-table: a few random extremes in several tables at once
+    // (tiny upem with huge coordinates, huge advance with extreme lsb, ...)
+    if !all_regions.is_empty() {
+        for c in 0..cross {
+            *item += 1;
+            if !ctx.mine(*item) {
+                continue;
+            }
+            let mut rng = Rng::derive(ctx.seed, "c20-cross", (font_ix as u64) << 20 | c as u64);
+            let n = 2 + rng.usize(6);
+            for _ in 0..n {
+                let (_, a, b) = *rng.pick(&all_regions);
+                if b < a + 2 {
+                    continue;
+                }
+                let pos = a + 2 * rng.usize((b - a) / 2);
+                if rng.chance(1, 4) && pos + 4 <= b {
+                    p.set32(&mut buf, pos, *rng.pick(&EXT32));
+                } else {
+                    p.set16(&mut buf, pos, *rng.pick(&EXT16));
+                }
+            }
+            // upem extremes are the classic divisor / scale source
+            if let Some(head) = dir.iter().find(|r| &r.tag == b"head") {
+                if rng.chance(1, 2) {
+                    p.set16(&mut buf, head.offset as usize + 18, *rng.pick(&[0u16, 1, 16, 15, 0x4000, 0xFFFF, 0x8000]));
+                }
+            }
+            let desc = p.describe();
+            ctx.count("mutants:cross", 1);
+            exercise(ctx, name, &format!("cross#{}:{}", c, desc), &buf);
+            p.undo(&mut buf);
+        }
+    }
+}
+
+fn rule_text() -> String {
+    "a case = one font byte string (extreme-value mutant, or an input of the re-run C01/C02/C13/C18/C19 workloads) driven through parsing, traversal, drawing (all hinting engines), metrics, colour, subsetting-plan and IFT operations in the overflow-checked, assertion-enabled build; non-trivial = distinct (font, mutation) digests of the extreme-value stage plus the re-run workloads' own non-trivial digests".into()
+}
+
+pub fn run(ctx: &mut Ctx, args: &Args) {
+    ctx.policy = PanicPolicy::StrictOnly;
+    ctx.panics_only = true;
+    if !cfg!(debug_assertions) {
+        ctx.inconclusive("C20 must be built with the strict profile (overflow checks + debug assertions)");
+        return;
+    }
+    // --- stage 1: extreme values
+    let fonts = vf_core::corpus_fonts();
+    let mut item = 0usize;
+    for (fi, f) in fonts.iter().enumerate() {
+        // big real-world fonts: one in four shards' worth of work is plenty
+        if f.data.len() > 300_000 && !ctx.tier.is_thorough() {
+            continue;
+        }
+        if f.name.ends_with(".ttc") {
+            continue;
+        }
+        extreme_values(ctx, fi, &f.name, &f.data, &mut item);
+    }
+    ctx.extra.insert("extreme_value_items_enumerated".into(), serde_json::json!(item));
+    // --- stage 2: the totality workloads, re-run in this build
+    let saved = ctx.scale;
+    ctx.scale = if ctx.tier.is_thorough() { 1.0 } else { 0.35 };
+    for (name, f) in [
+        ("C01", vf_c01::workload as fn(&mut Ctx, &Args)),
+        ("C02", vf_c02::workload as fn(&mut Ctx, &Args)),
+        ("C13", vf_c13::run as fn(&mut Ctx, &Args)),
+        ("C18", vf_c18::run as fn(&mut Ctx, &Args)),
+        ("C19", vf_c19::run as fn(&mut Ctx, &Args)),
+    ] {
+        let before = ctx.elapsed_s();
+        f(ctx, args);
+        // the re-run workloads may have changed policy / labels: restore ours
+        ctx.policy = PanicPolicy::StrictOnly;
+        ctx.panics_only = true;
+        let dt = ctx.elapsed_s() - before;
+        ctx.extra.insert(format!("rerun_{}_wall_s", name), serde_json::json!((dt * 10.0).round() / 10.0));
+    }
+    ctx.scale = saved;
+    ctx.rule = rule_text();
+    ctx.level = "exploration".into();
+    ctx.assumptions = vec![
+        "the panic-message classifier recognises rustc's overflow checks ('attempt to … with overflow') and assertion failures".into(),
+        "the re-run workloads judge panics only through Ctx::judge_panic; their semantic oracles are ignored here (panics_only)".into(),
+    ];
+}
+
+fn replay(ctx: &mut Ctx, _args: &Args, rec: &serde_json::Value, input: Option<&[u8]>) {
+    ctx.policy = PanicPolicy::StrictOnly;
+    ctx.panics_only = true;
+    ctx.rule = rule_text();
+    let Some(bytes) = input else {
+        ctx.inconclusive("replay record has no input bytes");
+        return;
+    };
+    let label = rec["detail"]["case"].to_string();
+    ctx.eval();
+    ctx.nontrivial(fnv64(bytes));
+    ctx.nontrivial(fnv64(bytes) ^ 1);
+    vf_c02::exercise_font(ctx, &label, bytes);
+    vf_c01::walk_font(ctx, &label, bytes);
 }
